@@ -18,7 +18,10 @@ for d in sorted(os.listdir(root)):
                                               ', '.join(own) or '—', ', '.join(others) or ''))
 open(os.path.join(root, 'INDEX.md'), 'w').write(
     '# Seeded changes (confirmed: suite 189 passed with the patch, demo fails with it, passes without)\n\n'
-    'k = 1–3: first round of sub-agents; k = 4–6: second round (agents asked for non-obvious sites).\n'
+    'k = 1–3: first round of sub-agents; 4–6: second (non-obvious sites); 7–9: third (no condition '
+    'changes); 10–12: fourth (added code); 13–15: fifth (cooperating edits, non-control-flow edits, '
+    'shared helpers); 16–18: sixth (library-call substitutions, mutable state, boundaries, exception '
+    'handling, templates / CLI).\n'
     '"own rules" are the rules of the property the change was written against that fire on it;\n'
     '"also" lists rules of other properties that fire as well.\n\n'
     '| seed | files | change | own rules | also |\n|---|---|---|---|---|\n' + '\n'.join(rows) + '\n')
